@@ -18,10 +18,12 @@ def gen_models(ctx, n, pid=None):
     ms += handmade()
     if pid == "C11":
         ms += wild_cycles(rng, max(40, n // 6))
+        ms += wild_cycles_below_subtraction(rng, max(40, n // 6))
     if pid in ("C11", "C06"):
         ms += wild_fans(rng, max(30, n // 8))
     if pid in ("C04", "C05", "C06"):
         ms += constrained_cycles(rng, max(60, n // 5))
+        ms += interlocking_cycles(rng, max(60, n // 5))
     if pid in ("C05", "C10"):
         ms += dangling_ttus(rng, max(40, n // 8))
     return ms
@@ -72,6 +74,69 @@ def constrained_cycles(rng, n):
         order = list(zip(rl, ml))
         rng.shuffle(order)
         types = [[S("user"), [], []], [S("doc"), [x[0] for x in order], [[[x[1] for x in order], [], []]]]]
+        out.append([S("1.1"), types, []])
+    return out
+
+
+def interlocking_cycles(rng, n):
+    """one type whose relations refer to each other through userset restrictions in all directions: several tuple cycles
+    that share nodes and nest (a node whose first edge closes one cycle and whose later edge reports that cycle AND another
+    one, in that order).  Union-only and well-founded (one relation at least takes users directly), so every start order
+    and every edge order must accept the model with the same weights and no placeholder left."""
+    out = []
+    for _ in range(n):
+        k = rng.choice([3, 3, 4, 4, 5])
+        rels = ["r%d" % i for i in range(k)]
+        rl, ml = [], []
+        anchored = rng.sample(rels, rng.choice([1, 1, 2]))
+        for r in rels:
+            others = [x for x in rels if x != r or rng.random() < 0.15]
+            refs = [[S("doc"), [1, S(x)], []] for x in rng.sample(others, min(len(others), rng.choice([1, 2, 2, 3])))]
+            if r in anchored:
+                refs.insert(rng.randrange(len(refs) + 1), [S("user"), [0], []])
+            rl.append([S(r), [1, 1]])
+            ml.append([S(r), [refs, [], []]])
+        # relations outside that enter the tangle (the search may start there)
+        for j in range(rng.choice([0, 1, 1, 2])):
+            rl.append([S("out%d" % j), [2, S(rng.choice(rels))]])
+            ml.append([S("out%d" % j), [[], [], []]])
+        order = list(zip(rl, ml))
+        rng.shuffle(order)
+        types = [[S("user"), [], []], [S("doc"), [x[0] for x in order], [[[x[1] for x in order], [], []]]]]
+        out.append([S("1.1"), types, []])
+    return out
+
+
+def wild_cycles_below_subtraction(rng, n):
+    """tuple cycles whose members are unions of an exclusion and a hop to the next member, where the SUBTRACTED relation of
+    each exclusion is public for a type of its own: that type is no weight of any cycle member (it is subtracted) but it is
+    a wildcard reachable from all of them, for some only through the edge that closes the cycle"""
+    out = []
+    pub = ["employee", "robot", "guest", "bot"]
+    for _ in range(n):
+        k = rng.choice([2, 2, 3])
+        rels = ["r%d" % i for i in range(k)]
+        types = [[S(t), [], []] for t in ["user"] + pub]
+        rl = [[S("parent"), [1, 1]], [S("base"), [1, 1]]]
+        ml = [[S("parent"), [[[S("grp"), [0], []]], [], []]], [S("base"), [[[S("user"), [0], []]], [], []]]]
+        for i, r in enumerate(rels):
+            nxt = rels[(i + 1) % k]
+            hop = rng.choice([[3, S("parent"), S(nxt)], [2, S(nxt)]]) if i > 0 else [3, S("parent"), S(nxt)]
+            if rng.random() < 0.75:
+                ban = "ban%d" % i
+                rl.append([S(ban), [1, 1]])
+                ml.append([S(ban), [[[S(pub[i % len(pub)]), [2], []]], [], []]])
+                first = [6, [2, S("base")], [2, S(ban)]]
+            else:
+                first = [2, S("base")]
+            kids = [first, hop]
+            rng.shuffle(kids)
+            rl.append([S(r), [4] + kids])
+            ml.append([S(r), [[], [], []]])
+        order = list(zip(rl, ml))
+        rng.shuffle(order)
+        types.append([S("grp"), [x[0] for x in order], [[[x[1] for x in order], [], []]]])
+        rng.shuffle(types)
         out.append([S("1.1"), types, []])
     return out
 
